@@ -116,3 +116,50 @@
 (define-fun-rec tflat_{EMITS} ((f Ref) (l {TA})) {TB} (ite ((_ is emp_{TA}) l) emp_{TB} (tcat_{TB} (tflat_{EMITS} f (init_{TA} l)) ({EMITS} f (last_{TA} l)))))
 (define-fun-rec tferrs_{EMITS} ((f Ref) (l {TA})) {TE} (ite ((_ is emp_{TA}) l) emp_{TE} (ite (= ({FAILS} f (last_{TA} l)) err_nil) (tferrs_{EMITS} f (init_{TA} l)) (snoc_{TE} (tferrs_{EMITS} f (init_{TA} l)) ({FAILS} f (last_{TA} l))))))
 (define-fun-rec tfallok_{EMITS} ((f Ref) (l {TA})) Bool (or ((_ is emp_{TA}) l) (and (= ({FAILS} f (last_{TA} l)) err_nil) (tfallok_{EMITS} f (init_{TA} l)))))
+
+; @template Hseq
+; hseq.Type[T] = {HT} with constructor {MK}(StructField, RootOffs, PureType, ID); lists {LHT}.
+; flatten(fs, off, acc): the list acc extended by the depth-first listing of the fields fs:
+; each field, then - if it is embedded and, after stripping one pointer, a struct - that
+; struct's fields with the root offset advanced by the field's offset; the ID of an entry is
+; its position in the full listing (the length of the listing before it).
+(define-fun pureof ((t RType)) RType (ite ((_ is rt_ptr) t) (rt_pelem t) t))
+(define-fun-rec flatten_{HT} ((fs L_S_reflect.StructField) (off Int) (acc {LHT})) {LHT}
+  (ite ((_ is nil_L_S_reflect.StructField) fs) acc
+    (let ((f (hd_L_S_reflect.StructField fs)) (ft (pureof (S_reflect.StructField_Type (hd_L_S_reflect.StructField fs)))))
+      (let ((acc1 (snocl_{LHT} acc ({MK} f off ft (len_{LHT} acc)))))
+        (ite (and (S_reflect.StructField_Anonymous f) ((_ is rt_struct) ft))
+          (flatten_{HT} (tl_L_S_reflect.StructField fs) off (flatten_{HT} (rt_fields ft) (+ off (S_reflect.StructField_Offset f)) acc1))
+          (flatten_{HT} (tl_L_S_reflect.StructField fs) off acc1))))))
+; the name of an entry: the first comma-separated part of its hseq tag when present
+(define-fun fieldkey_{HT} ((e {HT})) Str (let ((tg (splitfirst (tagget (S_reflect.StructField_Tag ({HT}_StructField e)) {S_HSEQ}) {S_COMMA}))) (ite (= tg str_empty) (S_reflect.StructField_Name ({HT}_StructField e)) tg)))
+(define-fun-rec hasname_{HT} ((l {LHT}) (name Str)) Bool (and ((_ is cons_{LHT}) l) (or (= (fieldkey_{HT} (hd_{LHT} l)) name) (hasname_{HT} (tl_{LHT} l) name))))
+(define-fun-rec firstname_{HT} ((l {LHT}) (name Str)) {HT} (ite (= (fieldkey_{HT} (hd_{LHT} l)) name) (hd_{LHT} l) (firstname_{HT} (tl_{LHT} l) name)))
+(define-fun-rec hastype_{HT} ((l {LHT}) (t RType)) Bool (and ((_ is cons_{LHT}) l) (or (= (S_reflect.StructField_Type ({HT}_StructField (hd_{LHT} l))) t) (hastype_{HT} (tl_{LHT} l) t))))
+(define-fun-rec firsttype_{HT} ((l {LHT}) (t RType)) {HT} (ite (= (S_reflect.StructField_Type ({HT}_StructField (hd_{LHT} l))) t) (hd_{LHT} l) (firsttype_{HT} (tl_{LHT} l) t)))
+(define-fun-rec allhave_{HT} ((l {LHT}) (names L_Str)) Bool (or ((_ is nil_L_Str) names) (and (hasname_{HT} l (hd_L_Str names)) (allhave_{HT} l (tl_L_Str names)))))
+
+; @template Layout
+; validloc(t, off, a): (off, a) is the location of a field of struct type t reached through
+; plain fields and value-embedded/nested structs only (never across a pointer): Go's layout
+; rule - offsets of nested value structs add.
+(define-fun-rec validfield ((fs L_S_reflect.StructField) (off Int) (a RType)) Bool
+  (and ((_ is cons_L_S_reflect.StructField) fs)
+       (or (and (= (S_reflect.StructField_Offset (hd_L_S_reflect.StructField fs)) off) (= (S_reflect.StructField_Type (hd_L_S_reflect.StructField fs)) a))
+           (and ((_ is rt_struct) (S_reflect.StructField_Type (hd_L_S_reflect.StructField fs)))
+                (<= (S_reflect.StructField_Offset (hd_L_S_reflect.StructField fs)) off)
+                (validfield (rt_fields (S_reflect.StructField_Type (hd_L_S_reflect.StructField fs))) (- off (S_reflect.StructField_Offset (hd_L_S_reflect.StructField fs))) a))
+           (validfield (tl_L_S_reflect.StructField fs) off a))))
+(define-fun validloc ((t RType) (off Int) (a RType)) Bool (and ((_ is rt_struct) t) (validfield (rt_fields t) off a)))
+
+; @template FieldAccess
+; a value of struct type {S} seen as a record of its fields: fget/fput at a location
+; (offset, field type {A}). Trusted layout axioms: reading what was written, writing what
+; was read, overwriting; a write at one valid location of the struct type {RS} does not
+; change what is read at another location (fields occupy disjoint byte ranges).
+(declare-fun fget_{S}_{A} ({S} Int) {A})
+(declare-fun fput_{S}_{A} ({S} Int {A}) {S})
+(assert (forall ((s {S}) (o Int) (a {A})) (! (= (fget_{S}_{A} (fput_{S}_{A} s o a) o) a) :pattern ((fput_{S}_{A} s o a)))))
+(assert (forall ((s {S}) (o Int)) (! (= (fput_{S}_{A} s o (fget_{S}_{A} s o)) s) :pattern ((fget_{S}_{A} s o)))))
+(assert (forall ((s {S}) (o Int) (a {A}) (b {A})) (! (= (fput_{S}_{A} (fput_{S}_{A} s o a) o b) (fput_{S}_{A} s o b)) :pattern ((fput_{S}_{A} (fput_{S}_{A} s o a) o b)))))
+(assert (forall ((s {S}) (o Int) (a {A}) (p Int)) (! (=> (distinct o p) (= (fget_{S}_{A} (fput_{S}_{A} s o a) p) (fget_{S}_{A} s p))) :pattern ((fget_{S}_{A} (fput_{S}_{A} s o a) p)))))
